@@ -143,10 +143,32 @@ def monotone_fn_axioms(formulas):
   return ax
 
 
+def powr_axioms(formulas):
+  """v ** e on 0 <= v, e > 0: endpoints, range and monotonicity in v (ground instances).
+  (x |-> x^e is increasing on [0, inf) for e > 0: Mathlib Real.rpow_le_rpow.)"""
+  ax = []
+  ts = {}
+  for t in apps_of(formulas, "powr"):
+    ts[t.sexpr()] = t
+  ts = list(ts.values())
+  for t in ts:
+    v, e = t.arg(0), t.arg(1)
+    ax.append(z3.Implies(z3.And(v >= 0, e > 0), t >= 0))
+    ax.append(z3.Implies(z3.And(v >= 0, v <= 1, e > 0), t <= 1))
+    ax.append(z3.Implies(z3.And(v == 0, e > 0), t == 0))
+    ax.append(z3.Implies(v == 1, t == 1))
+  for a, b in itertools.combinations(ts, 2):
+    same_e = a.arg(1) == b.arg(1)
+    ax.append(z3.Implies(z3.And(same_e, a.arg(1) > 0, a.arg(0) >= 0, a.arg(0) <= b.arg(0)), a <= b))
+    ax.append(z3.Implies(z3.And(same_e, a.arg(1) > 0, b.arg(0) >= 0, b.arg(0) <= a.arg(0)), b <= a))
+  return ax
+
+
 def all_axioms(formulas, hints=()):
   ax = pow2_axioms(formulas, hints)
   ax += log2_axioms(formulas + ax)
   ax += monotone_fn_axioms(formulas)
+  ax += powr_axioms(formulas)
   return ax
 
 
